@@ -4,11 +4,16 @@
    the model on case c (replies in wire order, cache changes added).  [summary_at c i o so s s1]:
    at step i submessage o was handled with observation so; s is the history summary of o's writer
    before the step and s1 the summary including o and the cache changes it caused.  A summary
-   records only inputs and observed outputs: [known s1 m] = m < first_sn of an effective HEARTBEAT,
-   or m in a valid GAP's range/bitmap, or the sample m was added to the topic cache.
+   records only inputs and observed outputs: [known s1 m] (DECLARED) = m < first_sn of an effective
+   HEARTBEAT, or m in a valid GAP's range/bitmap, or the sample m was added to the topic cache.
+   [recorded s1 m] (RECORDED) = the same, except that a GAP range that started above the ack base
+   the reader had when the GAP arrived (all_ackable_before observed after the previous submessage
+   of that writer) counts only up to that ack base + 256: what RtpsWriterProxy::
+   irrelevant_changes_range takes note of since repo fix c71c7f1.  recorded -> known
+   (C03_recorded_sub_declared).
    [in_advertised s1 x] = x lies in the range of the last effective HEARTBEAT. *)
 From Coq Require Import List ZArith Bool.
-From RD Require Import C03.Model C03.Sim C03.Proofs C03.Theorems.
+From RD Require Import C03.Model C03.Oracle C03.Sim C03.Proofs C03.Theorems.
 Import ListNotations.
 Open Scope Z_scope.
 
@@ -18,8 +23,9 @@ Proof. exact run_ok. Qed.
 Print Assumptions C03_model_ok.
 
 (* what the oracle's verdict means, step by step: every reply satisfies ReplyP against the summary
-   of its writer, the lowest unknown number of an effective HEARTBEAT's range is requested, a
-   submessage adds at most its own sample to the cache *)
+   of its writer (base: everything below it DECLARED; bits and NACKFRAG subjects: not RECORDED), the
+   lowest number of an effective HEARTBEAT's range that is not recorded is requested, a submessage
+   adds at most its own sample to the cache *)
 Theorem C03_oracle_sound : forall S o so S', step_ok S o so = Some S' -> StepP S o so S'.
 Proof. exact step_ok_sound. Qed.
 Print Assumptions C03_oracle_sound.
@@ -36,12 +42,34 @@ Theorem C03_oracle_sound_run : forall ops l S, chk S ops l = true ->
 Proof. exact oracle_sound_run. Qed.
 Print Assumptions C03_oracle_sound_run.
 
-(* every ACKNACK: everything below its base was received or declared unavailable *)
+(* every ACKNACK: everything below its base was received or declared unavailable (DECLARED) *)
 Theorem C03_base_truthful : forall c i o so s s1, wf_case c = true -> summary_at c i o so s s1 ->
   forall w base n bits cnt, In (AckNack w base n bits cnt) (so_replies so) ->
   w = op_writer o /\ forall m, 1 <= m < base -> known s1 m = true.
 Proof. exact base_truthful. Qed.
 Print Assumptions C03_base_truthful.
+
+(* the model gives more than the property asks: everything below an ACKNACK's base is even RECORDED
+   (the base is the reader's ack base: the lowest number it has neither received nor taken note of);
+   with C03_recorded_sub_declared this implies C03_base_truthful *)
+Theorem C03_base_recorded : forall c i o so s s1, wf_case c = true -> summary_at c i o so s s1 ->
+  forall w base n bits cnt, In (AckNack w base n bits cnt) (so_replies so) ->
+  forall m, m < base -> recorded s1 m = true.
+Proof. exact base_recorded. Qed.
+Print Assumptions C03_base_recorded.
+
+(* RECORDED is part of DECLARED, for every summary whatsoever ... *)
+Theorem C03_recorded_sub_declared : forall s m, recorded s m = true -> known s m = true.
+Proof. exact recorded_sub_known. Qed.
+Print Assumptions C03_recorded_sub_declared.
+
+(* ... and the difference is exactly the far part of GAP ranges that started above the reader's ack
+   base: a declared number that is not recorded (the only declared numbers an ACKNACK may list,
+   C03_bits_missing) lies at ack base + 256 or above in such a range *)
+Theorem C03_declared_not_recorded_far : forall s m, known s m = true -> recorded s m = false ->
+  exists r, In r (s_rng s) /\ g_ackbase r < g_from r /\ g_from r <= m /\ g_ackbase r + 256 <= m < g_until r.
+Proof. exact declared_not_recorded_far. Qed.
+Print Assumptions C03_declared_not_recorded_far.
 
 (* the bases of the ACKNACKs sent to one writer never decrease along a run *)
 Theorem C03_base_monotone : forall c w, wf_case c = true ->
@@ -49,30 +77,31 @@ Theorem C03_base_monotone : forall c w, wf_case c = true ->
 Proof. exact base_monotone. Qed.
 Print Assumptions C03_base_monotone.
 
-(* every number listed as missing is unknown and inside the last advertised range; at most 256 bits *)
+(* every number listed as missing is really missing — neither received nor recorded as unavailable
+   — and inside the last advertised range; at most 256 bits *)
 Theorem C03_bits_missing : forall c i o so s s1, wf_case c = true -> summary_at c i o so s s1 ->
   forall w base n bits cnt, In (AckNack w base n bits cnt) (so_replies so) ->
-  0 <= n <= 256 /\ forall x, In x bits -> base <= x < base + n /\ known s1 x = false /\ in_advertised s1 x.
+  0 <= n <= 256 /\ forall x, In x bits -> base <= x < base + n /\ recorded s1 x = false /\ in_advertised s1 x.
 Proof. exact bits_missing. Qed.
 Print Assumptions C03_bits_missing.
 
-(* after an effective HEARTBEAT whose range contains an unknown number, the lowest one is requested
-   by the ACKNACK's bitmap or is the subject of a NACKFRAG of the same reply; windows wider than 256
-   are inside the quantifier *)
+(* after an effective HEARTBEAT whose range contains a missing (= not recorded) number, the lowest
+   one is requested by the ACKNACK's bitmap or is the subject of a NACKFRAG of the same reply; windows
+   wider than 256 are inside the quantifier *)
 Theorem C03_lowest_requested : forall c i w first last count final so s s1, wf_case c = true ->
   summary_at c i (Hb w first last count final) so s s1 ->
   effective_hb s (Hb w first last count final) = true ->
-  forall m0, Z.max first 1 <= m0 <= last -> known s1 m0 = false ->
-    (forall m, Z.max first 1 <= m < m0 -> known s1 m = true) ->
+  forall m0, Z.max first 1 <= m0 <= last -> recorded s1 m0 = false ->
+    (forall m, Z.max first 1 <= m < m0 -> recorded s1 m = true) ->
     requested m0 (so_replies so) = true.
 Proof. exact lowest_requested. Qed.
 Print Assumptions C03_lowest_requested.
 
-(* a NACKFRAG names an unknown sample of the advertised range of which a DATAFRAG was seen, its
+(* a NACKFRAG names a missing (not recorded) sample of the advertised range of which a DATAFRAG was seen, its
    set is non-empty, starts at its base and spans at most 256 fragment numbers ... *)
 Theorem C03_nackfrag_sound : forall c i o so s s1, wf_case c = true -> summary_at c i o so s s1 ->
   forall w sn base n bits cnt, In (NackFrag w sn base n bits cnt) (so_replies so) ->
-  w = op_writer o /\ known s1 sn = false /\ in_advertised s1 sn /\ In sn (s_frag s1)
+  w = op_writer o /\ recorded s1 sn = false /\ in_advertised s1 sn /\ In sn (s_frag s1)
   /\ 1 <= base /\ 0 <= n <= 256 /\ (forall x, In x bits -> base <= x < base + n) /\ In base bits.
 Proof. exact nackfrag_sound. Qed.
 Print Assumptions C03_nackfrag_sound.
@@ -109,6 +138,21 @@ Print Assumptions C03_no_panic.
 Theorem C03_count_old_refuted : exists c, ok c (run_old c) = false.
 Proof. exact (ex_intro _ witness_count count_old_refuted). Qed.
 Print Assumptions C03_count_old_refuted.
+
+(* the GAP window made visible (see Theorems.v for the narrative): a GAP far above the ack base is
+   recorded only in the 256-window, the far numbers are requested again once the base has advanced,
+   and the writer's renewed GAP from the base clears them *)
+Example C03_gap_window_example :
+  wf_case gw_case = true
+  /\ map (fun so => (so_base so, so_nch so)) (L gw_case)
+     = [(1, 252); (1, 252); (2, 253); (3, 254); (4, 255); (257, 256); (257, 256); (1000, 256); (1000, 256)]
+  /\ map gw_acks (L gw_case)
+     = [[]; [(1, 4, 1, 4)]; []; []; []; []; [(257, 256, 257, 512)]; []; [(1000, 201, 1000, 1200)]]
+  /\ option_map (fun s => (known s 256, recorded s 256, known s 300, recorded s 300, s_base s)) (gw_summary 7)
+     = Some (true, true, true, false, 257)
+  /\ option_map (fun s => (recorded s 300, recorded s 999, recorded s 1000, s_base s)) (gw_summary 8)
+     = Some (true, true, false, 1000).
+Proof. exact gap_window_example. Qed.
 
 (* non-vacuity: the witness is well-formed, and its reply carries a NACKFRAG and an ACKNACK with a
    set bit *)
